@@ -275,6 +275,9 @@ func (fr *Frame) call(instr ssa.Value, cc *ssa.CallCommon, st *State, reach stri
 			st.worlds = fc.def("W", "(Array Int WorldS)", fmt.Sprintf("(store %s (c_br %s) (select %s (c_br %s)))", st.worlds, parent.T, st.worlds, child.T))
 			return Val{Tuple: nil, Typ: resT}
 		}
+		if fv.Fn != nil && strings.HasPrefix(fv.Fn.Special, "globalfn:") {
+			return fr.globalFnCall(strings.TrimPrefix(fv.Fn.Special, "globalfn:"), args, resT)
+		}
 		if fv.Fn != nil && fv.Fn.Fn != nil {
 			callee = fv.Fn.Fn
 			free = fv.Fn.Bindings
